@@ -17,7 +17,42 @@ func isPublishAwaiterCall(in ssa.Instruction) bool {
 		return false
 	}
 	cal := call.Call.StaticCallee()
-	return cal != nil && fnIs(cal, modPath+"/actions", "PublishAwaiter")
+	if cal != nil && fnIs(cal, modPath+"/actions", "PublishAwaiter") {
+		return true
+	}
+	// a local helper closure that (re-)registers on every one of its paths
+	var f *ssa.Function
+	if cal != nil && cal.Parent() != nil {
+		f = cal
+	} else if mc, isMC := call.Call.Value.(*ssa.MakeClosure); isMC {
+		f = mc.Fn.(*ssa.Function)
+	} else if u, isU := call.Call.Value.(*ssa.UnOp); isU {
+		if st := allocStores(u.X); len(st) == 1 {
+			f = funcOf(st[0].Val)
+		}
+	}
+	if f == nil || len(f.Blocks) == 0 {
+		return false
+	}
+	var reg ssa.Instruction
+	for _, b := range f.Blocks {
+		for _, i2 := range b.Instrs {
+			if c2, ok := i2.(*ssa.Call); ok {
+				if k := c2.Call.StaticCallee(); k != nil && fnIs(k, modPath+"/actions", "PublishAwaiter") {
+					reg = i2
+				}
+			}
+		}
+	}
+	if reg == nil {
+		return false
+	}
+	for _, ret := range returnsOf(f) {
+		if !instrDominates(reg, ret) {
+			return false
+		}
+	}
+	return true
 }
 
 // notifierValue: v is (a load / phi / conversion of) PublishAwaiter results only (besides the zero value).
